@@ -26,6 +26,8 @@ TRUSTED = [
     "NOT discharged here (the harness checks the resulting statement numerically by dense unitaries up to 6/7 qubits)",
     "Python ints modelled as Z, `%` by Z.modulo (positive modulus), `//` by Z.div; the while loops by fuel = distance "
     "(exhaustion proved impossible)",
+    "LinearSpinChain / SCQubits / CircularSpinChain .topology_map are tied to to_chain_structure(linear/linear/circular) by "
+    "comparing their outputs on a sample of the same inputs (N <= 7)",
     "only the gate attributes name/targets/controls/arg_value are modelled; classical controls, arg_label and style of "
     "a routed gate are dropped by the code and are outside the property",
 ]
